@@ -760,6 +760,52 @@ func (e *Engine) specFunc(y *ECall, env *evalEnv) (Val, bool) {
 			return Val{S: comp, T: bvT}, true
 		}
 		return Val{S: comp, T: specInt}, true
+	case "abienc":
+		// abienc("t1,t2,...", v1, v2, ...): the ABI encoding of the values with those Solidity types
+		if l, ok := y.Args[0].(*ELit); ok {
+			e.declABI()
+			tys := strings.Split(l.Val, ",")
+			if len(tys) != len(y.Args)-1 {
+				return e.evalErr("abienc: number of types and values differ"), true
+			}
+			tl, vl := "atnil", "avnil"
+			for i := len(tys) - 1; i >= 0; i-- {
+				tl = app("atcons", e.vc.strLit(strings.TrimSpace(tys[i])), tl)
+				a := arg(i + 1)
+				var av string
+				switch {
+				case a.T == bvT || (a.T != nil && isByteSlice(a.T)):
+					av = app("av_bytes", e.specKey(a, env))
+				case a.T != nil && kindOf(a.T) == kStr:
+					av = app("av_str", a.S)
+				case a.T == specBool || (a.T != nil && kindOf(a.T) == kBool):
+					av = app("av_bool", a.S)
+				default:
+					av = app("av_int", a.S)
+				}
+				vl = app("avcons", av, vl)
+			}
+			return Val{S: app("abi_pack", tl, vl), T: bvT}, true
+		}
+	case "pad":
+		// pad(b, n): byte string b right-padded with zeros / truncated to n bytes (copy into a fresh [n]byte)
+		e.declABI()
+		return Val{S: app("bv_pad", e.specKey(arg(0), env), arg(1).S), T: bvT}, true
+	case "ethaddr":
+		e.declABI()
+		e.vc.declFun("ethaddr", []string{"BV"}, "BV")
+		return Val{S: app("ethaddr", e.specKey(arg(0), env)), T: bvT}, true
+	case "hexdec":
+		e.declABI()
+		return Val{S: app("hexdec", arg(0).S), T: bvT}, true
+	case "ishexbytes":
+		e.declABI()
+		return Val{S: app("ishexbytes", arg(0).S), T: specBool}, true
+	case "strbytes":
+		// strbytes(s): the bytes of string s ([]byte(s))
+		e.declABI()
+		e.vc.declFun("str_bytes", []string{"Str"}, "(Array Int Int)")
+		return Val{S: app("bv_of", app("str_bytes", arg(0).S), "0", app("str_len", arg(0).S)), T: bvT}, true
 	case "pow2":
 		e.vc.declFun("pow2", []string{"Int"}, "Int")
 		e.vc.declSort("(assert (= (pow2 0) 1))")
